@@ -192,7 +192,7 @@ def extra_coverage(results, tier, seed):
                 done[s] = done.get(s, 0) + 1
     # vacuity guard per solver: a solver whose executions mostly give up has not been checked at all
     vac = [s for s in SOLVERS if done.get(s, 0) < 0.6 * max(total.get(s, 0), 1)]
-    if vac:
+    if vac and not any(r.get("fails") for r in results):  # must not mask violations that were found (exit 1 wins over exit 2)
         raise RuntimeError(f"vacuous: solvers {vac} completed fewer than 60% of their executions: {done} of {total}")
     return {"horizon_steps": NSTEPS[tier], "step_sizes": DTS[tier], "solver_tolerance": SOLVER_TOL, "dsv_tolerance": DSV_TOL,
             "executions_completed_per_solver": done, "executions_per_solver": total,
